@@ -144,6 +144,24 @@ def run(ctx):
             res.violate("e2e-faulty", case, "bounded run ending as the property prescribes", walk, bad, _signature(kind, lenient, bad, agent))
         reqs.append(W.model_request(spec, roots, kind, size=size, lenient=lenient, fuel=budget + 1))
         impls.append((case, walk, walk["outcome"] != ["done"] or len(agent.log) > 1))
+    # agents that shorten GETBULK responses below one repetition and answer some (completion)
+    # requests with no binding at all: the fetcher's completion loop must end as well
+    starved = []
+    scope = [c for c in W.small_scope() if len(c[1]) >= 2 and len(c[0]) >= 2]
+    for i, (db, roots) in enumerate(ctx.rng.sample(scope, min(len(scope), ctx.budget(150, 2500)))):
+        cut = [1, 2, 5][i % 3]
+        t = ctx.rng.choice([sorted(roots)[-1], sorted(roots)[1], sorted(roots)[1] + [1]])
+        pol = {"deep": True, "cut": cut, "rows": [1, 2][i % 2], "starve": t}
+        size = [1, 2, 3][i % 3]
+        spec = {"db": db, "policy": pol}
+        budget = (len(db) + 4) * len(roots)
+        walk, agent = W.impl_walk(spec, roots, "bulk", size=size, budget=budget)
+        res.count("mode:bulk-starved")
+        case = {"db": db, "roots": roots, "policy": pol, "kind": "bulk", "size": size}
+        if walk["outcome"] == ["error", ["agent-stop"]]:
+            res.violate("e2e-starved", case, "a bounded run", walk, f"bulk walk still requesting after {len(agent.log)} requests", {"kind": "walk-nontermination", "api": "bulkwalk", "agent": "starved"})
+        reqs.append(W.model_request(spec, roots, "bulk", size=size, fuel=budget + 1))
+        impls.append((case, walk, True))
     # table() / bulktable() over scripted agents: same loop, check that they end
     for i in range(ctx.budget(150, 3000)):
         roots, univ, table = random_table(ctx.rng)
